@@ -98,6 +98,15 @@ impl Obs {
 
     pub fn violation(&mut self, signature: impl Into<String>, detail: impl Into<String>, replay: Value) {
         let signature = signature.into();
+        let mut detail: String = detail.into();
+        if detail.len() > 4_000 {
+            let mut cut = 4_000;
+            while !detail.is_char_boundary(cut) {
+                cut -= 1;
+            }
+            detail.truncate(cut);
+            detail.push_str(" ...");
+        }
         self.violation_count += 1;
         let n = self.violation_sigs.entry(signature.clone()).or_insert(0);
         *n += 1;
@@ -105,7 +114,7 @@ impl Obs {
         if *n == 1 && self.violations.len() < MAX_VIOLATIONS_KEPT {
             self.violations.push(Violation {
                 signature,
-                detail: detail.into(),
+                detail,
                 replay,
             });
         }
